@@ -1,7 +1,377 @@
-use crate::ops::RunDesc;
-pub fn gen(prop: &str, seed: u64) -> RunDesc {
-    crate::gen::gen_interp_run(prop, "todo", seed, crate::gen::Profile::Ebr)
+//! QUEUE-LIN (C17): the collector's Michael-Scott queue (through the shim) under 1-3 producers
+//! and 1-3 consumers; recorded histories are checked for linearizability against a sequential
+//! FIFO with conditional pop, plus cheap invariants on long runs.
+
+use std::collections::{BTreeMap, HashSet, VecDeque};
+use std::sync::Arc;
+
+use circ::verif::VQueue;
+
+use crate::gen::swarm_cfg;
+use crate::json::J;
+use crate::ops::*;
+use crate::rng::Rng;
+use crate::sched::{self, sim, user_yield, Monitor, Outcome, ThreadSpec, Violation};
+
+#[derive(Clone, Debug)]
+pub struct QEv {
+    pub tid: usize,
+    pub kind: K,
+    pub arg: u64,
+    pub inv: u64,
+    pub ret: u64,
+    pub out: Option<u64>,
+    /// last predicate evaluation inside a pop_if: (value, result)
+    pub last_pred: Option<(u64, bool)>,
+    pub pred_evals: u32,
 }
-pub fn run(_desc: &RunDesc) -> ! {
-    unimplemented!()
+
+static mut QHIST: Vec<QEv> = Vec::new();
+static mut SOFT: Vec<(String, String)> = Vec::new();
+
+pub fn pred(id: u64, v: u64) -> bool {
+    match id % 5 {
+        0 => true,
+        1 => false,
+        2 => v % 2 == 0,
+        // monotone "expired" shape: sequence number below a threshold
+        3 => (v & 0xFFFF) < 3,
+        _ => (v >> 16) % 2 == 0,
+    }
+}
+
+pub fn gen(prop: &str, seed: u64) -> RunDesc {
+    let mut rng = Rng::new(seed);
+    let mut cfg = RunCfg::default();
+    let np = 1 + rng.below(3) as usize;
+    let nc = 1 + rng.below(3) as usize;
+    swarm_cfg(&mut rng, &mut cfg, np + nc, true);
+    // hot sites of this family: raw pointer atomics and op boundaries
+    if cfg.strategy == 2 {
+        cfg.hot_mask = (1 << 8) | if rng.chance(0.5) { 1 << 9 } else { 0 };
+    }
+    let long = rng.chance(0.15);
+    let total = if long { 60 + rng.below(140) as usize } else { 6 + rng.below(9) as usize };
+    let mut threads = Vec::new();
+    let per = (total / (np + nc)).max(1);
+    for p in 0..np {
+        let mut ops = Vec::new();
+        let hold = rng.chance(0.3);
+        if hold {
+            ops.push(op(K::Pin, 0, 0, 0, 0));
+        }
+        let mut k = 0;
+        for _ in 0..per {
+            if rng.chance(0.85) {
+                ops.push(op(K::QPush, ((p as u32) << 16) | k, 0, 0, 0));
+                k += 1;
+            } else {
+                ops.push(op(K::QPop, 0, 0, 0, 0));
+            }
+        }
+        if hold {
+            ops.push(op(K::Unpin, 0, 0, 0, 0));
+        }
+        let mut t = ThreadProg::new(0, ops);
+        t.name = "producer".into();
+        threads.push(t);
+    }
+    for c in 0..nc {
+        let mut ops = Vec::new();
+        let hold = rng.chance(0.3);
+        if hold {
+            ops.push(op(K::Pin, 0, 0, 0, 0));
+        }
+        let mut k = 0;
+        for _ in 0..per {
+            match rng.below(10) {
+                0 => {
+                    ops.push(op(K::QPush, (((np + c) as u32) << 16) | k, 0, 0, 0));
+                    k += 1;
+                }
+                1..=4 => ops.push(op(K::QPop, 0, 0, 0, 0)),
+                _ => ops.push(op(K::QPopIf, rng.below(5) as u32, 0, 0, 0)),
+            }
+        }
+        if hold {
+            ops.push(op(K::Unpin, 0, 0, 0, 0));
+        }
+        let mut t = ThreadProg::new(0, ops);
+        t.name = "consumer".into();
+        threads.push(t);
+    }
+    if rng.chance(0.4) {
+        let mut t = ThreadProg::new(0, crate::gen::ticker_ops(2 + rng.below(6) as usize));
+        t.name = "ticker".into();
+        threads.push(t);
+    }
+    if let Some(s) = cfg.stall.as_mut() {
+        s.victim = rng.below((np + nc) as u64) as u32;
+    }
+    RunDesc { prop: prop.to_string(), family: "queue".into(), seed, cfg, threads, params: J::obj().set("long", long), schedule: None, buggify_script: None }
+}
+
+struct QMon;
+impl Monitor for QMon {
+    fn use_after_free(&mut self, _tid: usize, site: u32, addr: usize) -> (String, String) {
+        ("C17".into(), format!("queue node at {:#x} accessed after it was freed ({})", addr, sched::site_name(site)))
+    }
+}
+
+#[allow(static_mut_refs)]
+fn body(tid: usize, q: &'static VQueue<u64>, prog: &ThreadProg) {
+    let mut guard: Option<circ::Guard> = None;
+    for (i, o) in prog.ops.iter().enumerate() {
+        sched::set_op(i as u32);
+        user_yield();
+        match o.k {
+            K::Pin => {
+                if guard.is_none() {
+                    guard = Some(circ::cs());
+                }
+            }
+            K::Unpin => guard = None,
+            K::Flush => {
+                if let Some(g) = &guard {
+                    g.flush();
+                }
+            }
+            K::QPush | K::QPop | K::QPopIf => {
+                let tmp;
+                let g = match &guard {
+                    Some(g) => g,
+                    None => {
+                        tmp = circ::cs();
+                        &tmp
+                    }
+                };
+                let inv = sim().seq;
+                let mut ev = QEv { tid, kind: o.k, arg: o.a as u64, inv, ret: 0, out: None, last_pred: None, pred_evals: 0 };
+                match o.k {
+                    K::QPush => q.push(o.a as u64, g),
+                    K::QPop => ev.out = q.try_pop(g),
+                    _ => {
+                        let id = o.a as u64;
+                        let last = std::cell::Cell::new(None);
+                        let n = std::cell::Cell::new(0u32);
+                        ev.out = q.try_pop_if(
+                            |v| {
+                                let r = pred(id, *v);
+                                last.set(Some((*v, r)));
+                                n.set(n.get() + 1);
+                                r
+                            },
+                            g,
+                        );
+                        ev.last_pred = last.get();
+                        ev.pred_evals = n.get();
+                    }
+                }
+                ev.ret = sim().seq;
+                unsafe { QHIST.push(ev) };
+            }
+            _ => {}
+        }
+    }
+    sched::set_op(prog.ops.len() as u32);
+    drop(guard);
+}
+
+fn apply(q: &VecDeque<u64>, e: &QEv) -> Option<VecDeque<u64>> {
+    match e.kind {
+        K::QPush => {
+            let mut n = q.clone();
+            n.push_back(e.arg);
+            Some(n)
+        }
+        K::QPop => match (q.front(), e.out) {
+            (None, None) => Some(q.clone()),
+            (Some(&f), Some(x)) if f == x => {
+                let mut n = q.clone();
+                n.pop_front();
+                Some(n)
+            }
+            _ => None,
+        },
+        _ => match (q.front(), e.out) {
+            (None, None) => Some(q.clone()),
+            (Some(&f), None) if !pred(e.arg, f) => Some(q.clone()),
+            (Some(&f), Some(x)) if f == x && pred(e.arg, f) => {
+                let mut n = q.clone();
+                n.pop_front();
+                Some(n)
+            }
+            _ => None,
+        },
+    }
+}
+
+pub fn linearizable(ops: &[QEv]) -> bool {
+    let n = ops.len();
+    if n == 0 {
+        return true;
+    }
+    let full: u64 = (1u64 << n) - 1;
+    let mut seen: HashSet<(u64, Vec<u64>)> = HashSet::new();
+    let mut stack: Vec<(u64, VecDeque<u64>)> = vec![(0, VecDeque::new())];
+    while let Some((mask, st)) = stack.pop() {
+        if mask == full {
+            return true;
+        }
+        if !seen.insert((mask, st.iter().copied().collect())) {
+            continue;
+        }
+        let mut min_ret = u64::MAX;
+        for (i, e) in ops.iter().enumerate() {
+            if mask & (1 << i) == 0 && e.ret < min_ret {
+                min_ret = e.ret;
+            }
+        }
+        for (i, e) in ops.iter().enumerate() {
+            if mask & (1 << i) != 0 || e.inv > min_ret {
+                continue;
+            }
+            if let Some(ns) = apply(&st, e) {
+                stack.push((mask | (1 << i), ns));
+            }
+        }
+    }
+    false
+}
+
+fn fmt(e: &QEv) -> String {
+    let v = |x: u64| format!("p{}.{}", x >> 16, x & 0xFFFF);
+    match e.kind {
+        K::QPush => format!("t{} [{}..{}] push({})", e.tid, e.inv, e.ret, v(e.arg)),
+        K::QPop => format!("t{} [{}..{}] try_pop -> {}", e.tid, e.inv, e.ret, e.out.map(v).unwrap_or("None".into())),
+        _ => format!("t{} [{}..{}] try_pop_if(pred{}) -> {}", e.tid, e.inv, e.ret, e.arg, e.out.map(v).unwrap_or("None".into())),
+    }
+}
+
+#[allow(static_mut_refs)]
+fn soft(sig: &str, det: String) {
+    unsafe {
+        if !SOFT.iter().any(|s| s.0 == sig) {
+            SOFT.push((sig.to_string(), det));
+        }
+    }
+}
+
+#[allow(static_mut_refs)]
+pub fn run(desc: &RunDesc) -> ! {
+    crate::runner::init_library(&desc.cfg);
+    let q: &'static VQueue<u64> = Box::leak(Box::new(VQueue::new()));
+    let progs: Arc<Vec<ThreadProg>> = Arc::new(desc.threads.clone());
+    let mut specs = Vec::new();
+    for (i, t) in desc.threads.iter().enumerate() {
+        let progs = progs.clone();
+        specs.push(ThreadSpec { phase: t.phase, stack: 1 << 20, name: "q", body: Arc::new(move |tid| body(tid, q, &progs[i])) });
+    }
+    // final drain by a thread running alone
+    let n = desc.threads.len();
+    specs.push(ThreadSpec {
+        phase: 9,
+        stack: 1 << 20,
+        name: "drain",
+        body: Arc::new(move |tid| {
+            let mut k = 0;
+            loop {
+                sched::set_op(k);
+                k += 1;
+                let g = circ::cs();
+                let inv = sim().seq;
+                let out = q.try_pop(&g);
+                unsafe { QHIST.push(QEv { tid, kind: K::QPop, arg: 0, inv, ret: sim().seq, out, last_pred: None, pred_evals: 0 }) };
+                drop(g);
+                if out.is_none() {
+                    break;
+                }
+            }
+            for _ in 0..8 {
+                let g = circ::cs();
+                g.flush();
+                drop(g);
+            }
+        }),
+    });
+    let sc = crate::runner::sim_config(desc, n + 1);
+    sched::run(sc, Box::new(QMon), specs, Some(crate::runner::clock));
+    // ---- oracles over the recorded history ----
+    let hist: Vec<QEv> = unsafe { QHIST.clone() };
+    let mut pushed: BTreeMap<u64, u64> = BTreeMap::new();
+    let mut popped: BTreeMap<u64, u32> = BTreeMap::new();
+    for e in &hist {
+        if e.kind == K::QPush {
+            pushed.insert(e.arg, e.inv);
+        }
+        if let Some(x) = e.out {
+            *popped.entry(x).or_insert(0) += 1;
+            if e.kind == K::QPopIf {
+                // the predicate must have held for the very element that was removed
+                match e.last_pred {
+                    Some((v, true)) if v == x => {}
+                    other => soft("pop_if-predicate-not-on-popped-element", format!("{}: last predicate evaluation was {:?}", fmt(e), other)),
+                }
+                if !pred(e.arg, x) {
+                    soft("pop_if-removed-failing-element", format!("{} although the predicate is false for it", fmt(e)));
+                }
+            }
+        }
+    }
+    for (x, c) in &popped {
+        if *c > 1 {
+            soft("popped-twice", format!("element p{}.{} was popped {} times", x >> 16, x & 0xFFFF, c));
+        }
+        if !pushed.contains_key(x) {
+            soft("popped-never-pushed", format!("element {:#x} was popped but never pushed", x));
+        }
+    }
+    for x in pushed.keys() {
+        if !popped.contains_key(x) {
+            soft("element-lost", format!("element p{}.{} was pushed but not popped by anyone, including the final drain", x >> 16, x & 0xFFFF));
+        }
+    }
+    // per consumer thread and producer: popped in push order
+    let mut last: BTreeMap<(usize, u64), u64> = BTreeMap::new();
+    for e in &hist {
+        if let Some(x) = e.out {
+            let key = (e.tid, x >> 16);
+            if let Some(&prev) = last.get(&key) {
+                if (x & 0xFFFF) < (prev & 0xFFFF) {
+                    soft("fifo-order-violated", format!("t{} popped p{}.{} after p{}.{}", e.tid, x >> 16, x & 0xFFFF, prev >> 16, prev & 0xFFFF));
+                }
+            }
+            last.insert(key, x);
+        }
+    }
+    let mut lin_checked = 0;
+    let mut concurrent_pairs = 0u64;
+    if hist.len() <= 26 {
+        let mut ops = hist.clone();
+        ops.sort_by_key(|e| (e.inv, e.ret, e.tid));
+        for i in 0..ops.len() {
+            for j in i + 1..ops.len() {
+                if ops[i].tid != ops[j].tid && ops[j].inv <= ops[i].ret && ops[i].inv <= ops[j].ret {
+                    concurrent_pairs += 1;
+                }
+            }
+        }
+        lin_checked = 1;
+        if !linearizable(&ops) {
+            soft("not-linearizable", format!("history is not linearizable as a FIFO queue with conditional pop: {}", ops.iter().map(fmt).collect::<Vec<_>>().join(" | ")));
+        }
+    }
+    if desc.cfg.quarantine {
+        if let Some(a) = crate::alloc::verify_poison() {
+            soft("write-after-free", format!("freed memory at {:#x} was written after it was freed", a));
+        }
+    }
+    crate::runner::set_extra("fam", J::obj().set("queue_ops", hist.len()).set("lin_checked", lin_checked).set("concurrent_pairs", concurrent_pairs).set("pops_some", popped.len()).set("pop_if_calls", hist.iter().filter(|e| e.kind == K::QPopIf).count()));
+    let softs = unsafe { SOFT.clone() };
+    crate::runner::set_extra("soft", J::Arr(softs.iter().map(|(s, d)| J::obj().set("prop", "C17").set("props", J::Arr(vec![J::Str("C17".into())])).set("signature", format!("C17/{}", s)).set("detail", d.as_str()).set("seq", 0)).collect()));
+    let outcome = match softs.first() {
+        Some((s, d)) => Outcome::Violation(Violation { prop: "C17".into(), kind: "soft".into(), signature: format!("C17/{}", s), detail: d.clone(), seq: sim().seq }),
+        None => Outcome::Ok,
+    };
+    sim().finish(outcome)
 }
